@@ -158,6 +158,9 @@ def _model_class(pp, spec):
         def bc_values_temperature(self, bg):
             return 1.2 * np.ones(bg.num_cells)
 
+    if spec.get("laws") == "ad":
+        # the differentiable-TPFA variants of the flux laws (optional mixins of the flow models)
+        return type("C04ModelAdLaws", (Closed, geom, pp.constitutive_laws.FouriersLawAd, pp.constitutive_laws.DarcysLawAd, phys), {})
     return type("C04Model", (Closed, geom, phys), {})
 
 
@@ -242,6 +245,8 @@ def check_case(rep, sw, pp, spec, n_states):
     topo = f"{nfr} fractures, " + ("interfaces+intersections" if n_inter else ("interfaces, no intersections" if intfs else "no interfaces"))
     if spec["domain"] == "square_nonmatching":
         topo += ", non-matching"
+    if spec.get("laws") == "ad":
+        topo += ", FouriersLawAd/DarcysLawAd"
     offs = np.cumsum([0] + [sd.num_cells for sd in sds])
     dt = float(m.time_manager.dt)
     done = 0
@@ -251,6 +256,11 @@ def check_case(rep, sw, pp, spec, n_states):
         try:
             with warnings.catch_warnings():
                 warnings.simplefilter("ignore")
+                if s_i >= 1:
+                    # a later solve with another time step (adaptive stepping): the balance must use the CURRENT step size
+                    dt = 0.37 * (0.5 if s_i % 2 else 1.7)
+                    m.time_manager.dt = dt
+                    m.before_nonlinear_loop()
                 es.set_variable_values(xp, time_step_index=0)
                 es.set_variable_values(x if upwind == "consistent" else _random_state(m, rng), iterate_index=0)
                 m.update_derived_quantities()  # upwind directions from the stored iterate
@@ -352,6 +362,9 @@ def _specs(rep):
                 add(model, "cube", "cartesian", fr, comp)
             for fr in ([0], [0, 1]):
                 add(model, "cube", "simplex", fr, comp)
+    # the differentiable-TPFA flux laws (FouriersLawAd, DarcysLawAd) on fractured and unfractured domains
+    for fr, dom, grid in (([], "square", "cartesian"), ([0], "square", "cartesian"), ([0, 1], "rectangle", "simplex")):
+        specs.append({"model": "mass_energy", "domain": dom, "grid": grid, "fractures": list(fr), "compressible": True, "laws": "ad", "seed": rng.randrange(2**31)})
     return specs
 
 
